@@ -42,6 +42,8 @@ def scenarios(seed, tier):
         r1 = random.Random(rnd.getrandbits(48))
         if i % 10 == 9:
             c = CH.gen_focus_start_fuel(r1, tmax=8 if tier == 'quick' else 10)
+        elif i % 10 == 4:
+            c = CH.gen_focus_ramp_conv(r1, tmax=8 if tier == 'quick' else 10)
         else:
             c = CH.gen_case(r1, kind=kinds[i % 5], tmax=8 if tier == 'quick' else 10)
         c['_tier'] = tier
